@@ -157,6 +157,43 @@ class Model:
             self._alpha_normalise()
         self._index()
         self._mro_cache = {}
+        if normalise:
+            self._attribute_setup_helpers()
+
+    def _attribute_setup_helpers(self):
+        """A method split into itself plus a private helper that only it
+        calls (`__init__` + `self._setup(...)`, `importSchemaComponent` +
+        `self._extensible_schema()`) still does what it did: field writes of
+        such a helper (one the references and rules do not know) are
+        attributed to its single caller, and `owner(fi)` names that caller."""
+        from .absint import spec_vocabulary
+        vocab = spec_vocabulary()
+        self.helper_owner = {}
+        for c in self.classes.values():
+            for name, h in list(c.methods.items()):
+                if not _is_private(name) or name in vocab:
+                    continue
+                callers = set()
+                for mn, mf in c.methods.items():
+                    if mf is h:
+                        continue
+                    for n in ast.walk(mf.node):
+                        if isinstance(n, ast.Call) and isinstance(
+                                n.func, ast.Attribute) and n.func.attr == name:
+                            callers.add(mn)
+                if len(callers) != 1:
+                    continue
+                self.helper_owner[h.qualname] = c.methods[callers.pop()]
+
+    def owner(self, fi):
+        """The function a helper's work is attributed to (itself for
+        anything that is not a single-caller private helper)."""
+        seen = set()
+        while fi is not None and fi.qualname in getattr(
+                self, "helper_owner", {}) and fi.qualname not in seen:
+            seen.add(fi.qualname)
+            fi = self.helper_owner[fi.qualname]
+        return fi
 
     # ------------------------------------------------------- alpha-renaming
     def _alpha_normalise(self):
@@ -618,6 +655,20 @@ class Model:
                 if vals and len(vals) == 1:
                     return self.fold(m, vals[0], None, None, _depth + 1)
             raise Unfoldable("attribute " + d)
+        if isinstance(expr, ast.Call) and isinstance(expr.func, ast.Name) \
+                and expr.func.id in ("frozenset", "set", "tuple", "list") \
+                and not expr.keywords and len(expr.args) <= 1:
+            # frozenset((...)) / set([...]) / tuple([...]) of literals
+            if not expr.args:
+                return {"frozenset": frozenset(), "set": frozenset(),
+                        "tuple": (), "list": []}[expr.func.id]
+            v = f(expr.args[0])
+            try:
+                if expr.func.id in ("frozenset", "set"):
+                    return frozenset(v)
+                return tuple(v) if expr.func.id == "tuple" else list(v)
+            except TypeError as e:
+                raise Unfoldable(str(e))
         raise Unfoldable(type(expr).__name__)
 
     def fold_class_attr(self, cq, name):
